@@ -40,7 +40,7 @@ REQUIRED = ['check:optimal:' + f for f in FITTERS] + ['check:selection_only', 'c
 REACH = FITTERS + ['_nn_least_squares', '_loss', 'ModelWeighted.predict', 'ModelWeighted.predict_rdm',
                    'ModelSelect.predict_rdm', 'ModelInterpolate.predict_rdm', 'ModelFixed.predict_rdm',
                    'model_from_dict']
-FAIL_KEYS = ['fitter', 'method', 'sigma', 'selection', 'normalize', 'what', 'model']
+FAIL_KEYS = ['fitter', 'method', 'sigma', 'selection', 'normalize', 'what', 'model', 'basis_storage']
 TIME_BUDGET = {'quick': 100, 'thorough': 900}
 
 
@@ -126,7 +126,7 @@ def data_rdms(prob, data=None):
 def call_fitter(fname, model, data_obj, prob, method, sigma, normalize):
     idx = np.array([prob['lab'][p] for p in prob['pos']])
     kw = dict(method=method, pattern_idx=idx, pattern_descriptor=prob['desc'])
-    if prob['selk'] == 'all' and list(prob['pos']) == list(range(prob['n_cond'])) and prob['n_cond'] % 2 == 0:
+    if prob['selk'] == 'all' and list(prob['pos']) == list(range(prob['n_cond'])) and (prob['n_cond'] % 2 == 0 or prob.get('no_sel')):
         kw = dict(method=method)        # all conditions in their own order: the selection arguments may simply be omitted
     if method.endswith('_cov'):
         # a preallocated covariance buffer overwritten from case to case (same object, new values)
@@ -207,8 +207,15 @@ def run_weighted(ctx, fname, force=None):
         bunit = float(10.0 ** int(gen.pick(rng, [-6, -3, 3, 5, 7])))
         prob['basis'] = prob['basis'] * bunit
     if fname in ('fit_regress', 'fit_regress_nn') and not tiny and force is None and bunit == 1.0 and rng.integers(4) == 0:
-        # basis RDMs holding whole numbers, stored in an integer array (ordinal model RDMs, counts)
-        prob['basis'] = np.round(np.asarray(prob['basis']) * 10).astype(np.int64)
+        # basis RDMs holding whole numbers, stored in an integer array (ordinal model RDMs, counts), or categorical 0/1
+        # RDMs stored as booleans (the result of `category[:, None] != category[None, :]`)
+        if rng.integers(2):
+            prob['basis'] = np.round(np.asarray(prob['basis']) * 10).astype(np.int64)
+        else:
+            prob['basis'] = rng.integers(0, 2, size=np.asarray(prob['basis']).shape).astype(bool)
+        # the storage reaches the fitter only when no selection is made (a selection builds float copies): fit all
+        # conditions without selection arguments
+        prob['selk'], prob['pos'], prob['no_sel'] = 'all', list(range(prob['n_cond'])), True
     method = gen.pick(rng, ['cosine', 'corr', 'cosine_cov', 'corr_cov'])
     n_sub = len(prob['pos'])
     sk = gen.pick(rng, ['none', 'none', 'matrix']) if method.endswith('_cov') else 'none'  # the fitters document a matrix
@@ -241,7 +248,8 @@ def run_weighted(ctx, fname, force=None):
     if prob['selk'] == 'bootstrap' and len(set(prob['pos'])) < len(prob['pos']):
         ctx.count('bootstrap_selections')
     sig = dict(fitter=fname, method=method, sigma=sk, selection=prob['selk'], normalize=normalize,
-               desc=prob['desc'], n_basis=prob['n_basis'], rank_deficient=bool(tiny), basis_unit=bunit)
+               desc=prob['desc'], n_basis=prob['n_basis'], rank_deficient=bool(tiny), basis_unit=bunit,
+               basis_storage={'f': 'float', 'i': 'int', 'b': 'bool'}.get(np.asarray(prob['basis']).dtype.kind, 'other'))
     wit = lambda **k: dict(basis=prob['basis'], data=prob['data'], pos=prob['pos'], labels=prob['labels'],  # noqa
                            desc=prob['desc'], method=method, sigma_k=sigma, fitter=fname, **k)
     model = ModelWeighted('w', model_rdms(prob))
